@@ -524,6 +524,12 @@ class Interp:
         if isinstance(ty, TList) and isinstance(val, (ConstSeq, tuple)):
             items = val.items if isinstance(val, ConstSeq) else list(val)
             return self.new_list(items, ty.t)
+        if isinstance(ty, TSet) and isinstance(val, SetV) and val.ety == ANY and ty.t not in (ANY, NONE):
+            # `self.x = set()`: the fresh empty set takes the declared element type of the field
+            val.ety = ty.t
+            nme, a = self.set_arr(val)
+            self.heap.set(nme, z3.Store(a, val.ref, z3.K(sort_of(val.ety), z3.BoolVal(False))))
+            return val
         if isinstance(ty, TSet) and isinstance(val, SymSet):
             r = self.alloc('set')
             name, a = self.set_arr(SetV(r, ty.t))
@@ -1039,6 +1045,12 @@ class InterpExpr:
             ic = self.init_constant(obj, attr)
             if ic is not NotImplemented:
                 return ic
+        if ft is not None and self._has_fun(ft) and not self.ct.is_instance_assigned(cls, attr):
+            # annotated class-level table of classes / functions never assigned through an instance: a class constant
+            cd = self.ct.class_default(cls, attr)
+            if cd is not None:
+                dc = next(c for c in self.ct.mro(cls) if attr in self.ct.classes[c].class_ann)
+                return self.ev(cd[0], Frame(None, cd[1], {}, None, dc))
         if ft is not None and (self.ct.is_field(cls, attr) or (cls, attr) in getattr(self.ts.shapes, 'FIELD_TYPES', {})
                                or ('*', attr) in getattr(self.ts.shapes, 'FIELD_TYPES', {})):
             return self.read_field(obj, attr)
@@ -1135,6 +1147,12 @@ class InterpExpr:
         if not ok:
             raise Unsupported(f'{obj.cls}.{attr}: constructor value is not a constant expression')
         return self.ev(v, Frame(None, init.module, {}, None, init.cls))
+    def _has_fun(self, ty, inner=False):
+        """the declared type holds callables / classes (Callable, Type, or an untyped element of a container)"""
+        if isinstance(ty, TFun) or (inner and ty == ANY):
+            return True
+        return any(self._has_fun(x, True) for x in (getattr(ty, 't', None), getattr(ty, 'k', None), getattr(ty, 'v', None))
+                   if isinstance(x, Ty))
 
     def class_const(self, cc):
         dc, node = cc
@@ -1703,8 +1721,7 @@ class InterpExpr:
             return list(v)
         if isinstance(v, str):
             return list(v)
-        if isinstance(v, ClassV) and v.name in self.ct.classes and self.ts.is_enum_class(v.name) \
-                and self.ts.enum_info(v.name)['is_enum']:
+        if isinstance(v, ClassV) and v.name in self.ct.classes and self.ct.classes[v.name].is_enum:
             # iterating an Enum class yields its members in definition order
             return [EnumMember(v.name, n, code, val) for n, code, val in self.ts.enum_info(v.name)['members']]
         return None
